@@ -43,3 +43,134 @@ func zzSameSlice[T any](a, b []T) bool {
 //@ func NewEmptyItem
 //@ ensures [empty] result != nil && result.Error() == nil && result.EncodedLen() == 0
 //@ ensures [fresh] fresh(result)
+
+// --- C01: SEMI E5 §9.2 item header (DESIGN.md Appendix F.1) ---
+
+// specNLB is the minimal number of length bytes that hold the length field n.
+func specNLB(n int) int {
+	if n > 0xFFFF {
+		return 3
+	}
+	if n > 0xFF {
+		return 2
+	}
+	return 1
+}
+
+//@ func headerLen
+//@ ensures [e5] result == 1 + specNLB(dataByteLength)
+
+//@ func appendHeaderBytesFC
+//@ requires 0 <= lengthField
+//@ modifies dst
+//@ ensures [err]    (result1 != nil) == (lengthField > MaxByteSize)
+//@ ensures [noop]   result1 != nil ==> zzSameSlice(result0, old(dst))
+//@ ensures [len]    result1 == nil ==> len(result0) == len(old(dst)) + 1 + specNLB(lengthField)
+//@ ensures [prefix] forall j :: 0 <= j && j < len(old(dst)) ==> result0[j] == old(dst)[j]
+//@ ensures [fmt]    result1 == nil ==> result0[len(old(dst))] == byte(fc)<<2|byte(specNLB(lengthField))
+//@ ensures [be]     result1 == nil ==> forall j :: 0 <= j && j < specNLB(lengthField) ==>
+//@                    result0[len(old(dst))+1+j] == byte(lengthField >> (8 * (specNLB(lengthField) - 1 - j)))
+//@ ensures [alias]  fresh(result0) || zzSameSlice(result0[:0], old(dst)[:0])
+
+// specHdrAt: dst carries at offset p the E5 header for format code fc and length field n
+// (format byte fc<<2|nlb, then n big-endian in the minimal nlb bytes).
+func specHdrAt(dst []byte, p int, fc FormatCode, n int) bool {
+	return len(dst) >= p+1+specNLB(n) && dst[p] == byte(fc)<<2|byte(specNLB(n)) &&
+		zzForall(func(j int) bool {
+			return zzImp(0 <= j && j < specNLB(n), dst[p+1+j] == byte(n>>(8*(specNLB(n)-1-j))))
+		})
+}
+
+// specPrefix: res starts with exactly the bytes of old.
+func specPrefix(res, old []byte) bool {
+	return len(res) >= len(old) && zzForall(func(j int) bool { return zzImp(0 <= j && j < len(old), res[j] == old[j]) })
+}
+
+// specSuffixIs: res == old ++ tail.
+func specSuffixIs(res, old, tail []byte) bool {
+	return len(res) == len(old)+len(tail) && specPrefix(res, old) &&
+		zzForall(func(j int) bool { return zzImp(0 <= j && j < len(tail), res[len(old)+j] == tail[j]) })
+}
+
+// specSameOrFresh: an append result either extends the destination's own array or is newly allocated.
+func specSameOrFresh(res, dst []byte) bool { return zzFresh(res) || zzSameSlice(res[:0], dst[:0]) }
+
+// --- C01: signed integer items (format codes I8 0o30, I1 0o31, I2 0o32, I4 0o34; two's complement big-endian) ---
+
+func specIntFC(w uint32) FormatCode {
+	switch w {
+	case 1:
+		return 0o31
+	case 2:
+		return 0o32
+	case 4:
+		return 0o34
+	}
+	return 0o30
+}
+
+// specIntVal is the k-th logical element (single values are stored inline).
+func specIntVal(it *IntItem, k int) int64 {
+	if it.size == 1 {
+		return it.scalar
+	}
+	return it.values[k]
+}
+
+// invIntItem: representation invariant of every IntItem a constructor or the decoder hands out.
+func invIntItem(it *IntItem) bool {
+	return it != nil && it.size >= 0 && (it.size == 1 || len(it.values) == int(it.size)) &&
+		(it.itemErr != nil || ((it.byteSize == 1 || it.byteSize == 2 || it.byteSize == 4 || it.byteSize == 8) &&
+			int(it.size)*int(it.byteSize) <= MaxByteSize))
+}
+
+// specIntPayload: the first cnt elements of it are encoded at dst[base:], w bytes each, big-endian.
+func specIntPayload(dst []byte, base int, it *IntItem, w int, cnt int) bool {
+	return zzForall(func(k int) bool {
+		return zzForall(func(j int) bool {
+			return zzImp(0 <= k && k < cnt && 0 <= j && j < w,
+				dst[base+w*k+j] == byte(uint64(specIntVal(it, k))>>(8*(w-1-j))))
+		})
+	})
+}
+
+//@ func (*IntItem).formatCode
+//@ requires item != nil
+//@ ensures [ok] result1 == (item.byteSize == 1 || item.byteSize == 2 || item.byteSize == 4 || item.byteSize == 8)
+//@ ensures [fc] result1 ==> result0 == specIntFC(item.byteSize)
+
+//@ func (*IntItem).EncodedLen
+//@ requires invIntItem(item)
+//@ ensures [err] item.itemErr != nil ==> result == 0
+//@ ensures [raw] item.itemErr == nil && item.rawPtr != nil ==> result == item.rawLen
+//@ ensures [e5]  item.itemErr == nil && item.rawPtr == nil ==>
+//@               result == 1 + specNLB(int(item.size)*int(item.byteSize)) + int(item.size)*int(item.byteSize)
+
+//@ func (*IntItem).AppendTo
+//@ requires invIntItem(item)
+//@ modifies dst
+//@ ensures [err]    item.itemErr != nil ==> zzSameSlice(result, old(dst))
+//@ ensures [prefix] specPrefix(result, old(dst))
+//@ ensures [alias]  specSameOrFresh(result, old(dst))
+//@ ensures [len]    item.itemErr == nil && item.rawPtr == nil ==>
+//@                  len(result) == len(old(dst)) + 1 + specNLB(int(item.size)*int(item.byteSize)) + int(item.size)*int(item.byteSize)
+//@ ensures [hdr]    item.itemErr == nil && item.rawPtr == nil ==>
+//@                  specHdrAt(result, len(old(dst)), specIntFC(item.byteSize), int(item.size)*int(item.byteSize))
+//@ ensures [be]     item.itemErr == nil && item.rawPtr == nil ==>
+//@                  specIntPayload(result, len(old(dst))+1+specNLB(int(item.size)*int(item.byteSize)), item, int(item.byteSize), int(item.size))
+//@ loop 1 invariant [len]    len(dst) == len(old(dst)) + 1 + specNLB(int(item.size)) + zzIter()
+//@ loop 1 invariant [prefix] specPrefix(dst, old(dst)) && specSameOrFresh(dst, old(dst))
+//@ loop 1 invariant [hdr]    specHdrAt(dst, len(old(dst)), 0o31, int(item.size))
+//@ loop 1 invariant [be]     specIntPayload(dst, len(old(dst))+1+specNLB(int(item.size)), item, 1, zzIter())
+//@ loop 2 invariant [len]    len(dst) == len(old(dst)) + 1 + specNLB(2*int(item.size)) + 2*zzIter()
+//@ loop 2 invariant [prefix] specPrefix(dst, old(dst)) && specSameOrFresh(dst, old(dst))
+//@ loop 2 invariant [hdr]    specHdrAt(dst, len(old(dst)), 0o32, 2*int(item.size))
+//@ loop 2 invariant [be]     specIntPayload(dst, len(old(dst))+1+specNLB(2*int(item.size)), item, 2, zzIter())
+//@ loop 3 invariant [len]    len(dst) == len(old(dst)) + 1 + specNLB(4*int(item.size)) + 4*zzIter()
+//@ loop 3 invariant [prefix] specPrefix(dst, old(dst)) && specSameOrFresh(dst, old(dst))
+//@ loop 3 invariant [hdr]    specHdrAt(dst, len(old(dst)), 0o34, 4*int(item.size))
+//@ loop 3 invariant [be]     specIntPayload(dst, len(old(dst))+1+specNLB(4*int(item.size)), item, 4, zzIter())
+//@ loop 4 invariant [len]    len(dst) == len(old(dst)) + 1 + specNLB(8*int(item.size)) + 8*zzIter()
+//@ loop 4 invariant [prefix] specPrefix(dst, old(dst)) && specSameOrFresh(dst, old(dst))
+//@ loop 4 invariant [hdr]    specHdrAt(dst, len(old(dst)), 0o30, 8*int(item.size))
+//@ loop 4 invariant [be]     specIntPayload(dst, len(old(dst))+1+specNLB(8*int(item.size)), item, 8, zzIter())
